@@ -511,6 +511,24 @@ def _digits_of(t):
     return None
 
 
+def param_roles(fn):
+    """parameters of a formatting layer by what they carry (found by type, so their order is free)"""
+    roles = {}
+    for i, ty in enumerate(fn.argtys(), 1):
+        t = ty.replace('mut ', '').strip()
+        if re.search(r'^(std::string::)?String$|^(std::vec::)?Vec<u8>$', t) and 'digits' not in roles:
+            roles['digits'] = i
+        elif re.search(r'BigDecimalRef', t) and 'this' not in roles:
+            roles['this'] = i
+        elif re.search(r'(^|::)Sign$', t) and 'sign' not in roles:
+            roles['sign'] = i
+        elif t == 'i64' and 'scale' not in roles:
+            roles['scale'] = i
+        elif t == 'i128' and 'exp' not in roles:
+            roles['exp'] = i
+    return roles
+
+
 def call_specs(rep, F, rule='NUMERAL-SHAPE'):
     """every layer hands the next one the same number: the digit string is to_str_radix(this.digits, 10) of the very
     decimal passed along, the explicit exponent is -this.scale, the sign is this.sign"""
@@ -518,10 +536,16 @@ def call_specs(rep, F, rule='NUMERAL-SHAPE'):
     want = {
         'format_exponential': lambda a: [('digit string', _digits_of(a[2]) == norm(a[0]))],
         'format_full_scale': lambda a: [('digit string', _digits_of(a[2]) == norm(a[0]))],
-        'format_dotless_exponential': lambda a: [('digit string', _digits_of(a[1]) is not None),
-                                                 ('sign', norm(a[2]) == ('field', _digits_of(a[1]), 'sign')),
-                                                 ('scale', norm(a[3]) == ('field', _digits_of(a[1]), 'scale'))],
     }
+    dl = F.fns.get('impl_fmt::format_dotless_exponential')
+    if dl is not None:
+        r_ = param_roles(dl)
+        if 'digits' in r_ and 'this' in r_:
+            want['format_dotless_exponential'] = lambda a, r_=r_: [('digit string', _digits_of(a[r_['digits'] - 1]) == norm(a[r_['this'] - 1]))]
+        elif 'digits' in r_ and 'sign' in r_ and 'scale' in r_:
+            want['format_dotless_exponential'] = lambda a, r_=r_: [('digit string', _digits_of(a[r_['digits'] - 1]) is not None),
+                                                                   ('sign', norm(a[r_['sign'] - 1]) == ('field', _digits_of(a[r_['digits'] - 1]), 'sign')),
+                                                                   ('scale', norm(a[r_['scale'] - 1]) == ('field', _digits_of(a[r_['digits'] - 1]), 'scale'))]
     for k, fn in sorted(F.fns.items()):
         if fn.is_closure or not any(re.search(r'impl_fmt::format_(exponential|full_scale|dotless_exponential|exponential_bigendian_ascii_digits)$', (t['callee'].get('resolved') or '')) for b, t in fn.calls()):
             continue
@@ -564,16 +588,30 @@ def check(rep, F, rule='NUMERAL-SHAPE'):
         rep.add_functions([fn.name])
         n += writer_tape(rep, F, fn, scale_of_arg1, rule, scale_preserving=nm.endswith('write_scientific_notation'))
     fn = F.fns.get('impl_fmt::format_exponential_bigendian_ascii_digits')
-    if fn is None:
+    outer = F.fns.get('impl_fmt::format_exponential')
+    if fn is None and outer is not None and 'digits' in param_roles(outer) and 'this' in param_roles(outer):
+        # the digit-level routine merged into its only caller: the same obligations on the merged body, whose digit string
+        # is the caller's String parameter and whose exponent is -this.scale
+        r_ = param_roles(outer)
+        rep.add_functions([outer.name])
+        n += string_tape(rep, F, outer, r_['digits'], add({}, lin(TB.T('field', TB.T('param', r_['this']), 'scale')), -1), rule)
+    elif fn is None:
         rep.violation(rule, 'format_exponential_bigendian_ascii_digits:missing', 'anchor function not found (fail closed)')
     else:
         rep.add_functions([fn.name])
-        n += string_tape(rep, F, fn, 1, lin(TB.T('param', 3)), rule)
+        r_ = param_roles(fn)
+        n += string_tape(rep, F, fn, r_.get('digits', 1), lin(TB.T('param', r_.get('exp', 3))), rule)
     fn = F.fns.get('impl_fmt::format_dotless_exponential')
     if fn is None:
         rep.violation(rule, 'format_dotless_exponential:missing', 'anchor function not found (fail closed)')
     else:
         rep.add_functions([fn.name])
-        n += string_tape(rep, F, fn, 2, add({}, lin(TB.T('param', 4)), -1), rule)
+        r_ = param_roles(fn)
+        if 'digits' in r_ and 'scale' in r_:
+            n += string_tape(rep, F, fn, r_['digits'], add({}, lin(TB.T('param', r_['scale'])), -1), rule)
+        elif 'digits' in r_ and 'this' in r_:
+            n += string_tape(rep, F, fn, r_['digits'], add({}, lin(TB.T('field', TB.T('param', r_['this']), 'scale')), -1), rule)
+        else:
+            rep.undecided(rule, fn.key + ':point-and-exponent', 'parameters of the dot-less exponent form not recognised by type', fn.where())
     n += call_specs(rep, F, rule)
     return n
